@@ -383,6 +383,7 @@ class PageTemplate(BaseTemplate):
             'restricted_namespace',
             'default_expression',
             'mode',
+            'tokenizer',
         ):
             v = getattr(self, attr)
             if isinstance(v, (set, frozenset, list, tuple)):
